@@ -1,5 +1,5 @@
 #!/usr/bin/env python3
-"""tools/mutsweep.py [--workers N] [--limit K] [--filter SUBSTR] [--out FILE]
+"""tools/mutsweep.py [--workers N] [--limit K] [--filter SUBSTR] [--out FILE] [--kinds ops,strings,variants]
 
 Systematic small mutations of /repo's non-test source (operator swaps, literal bumps, twin methods, dropped cut_err, range
 bounds), one at a time, each in a scratch copy (never /repo itself):
@@ -26,6 +26,8 @@ WORKERS = int(opt("--workers", "8"))
 LIMIT = int(opt("--limit", "0"))
 FILTER = opt("--filter", "")
 OUT = opt("--out", "/root/runs/mutsweep.json")
+KINDS = set(opt("--kinds", "ops").split(","))  # ops (operators, literals, twins), strings (inside string literals), variants (sibling enum variants)
+ENUMS = {}
 
 OPS = [
     (r"(?<![<>=!])<=(?!=)", "<"), (r"(?<![<>=!-])<(?![<=])", "<="), (r"(?<![<>=!-])>=(?!=)", ">"), (r"(?<![<>=!-])>(?![>=])", ">="),
@@ -42,6 +44,35 @@ OPS = [
 INT = re.compile(r"(?<![\w.#\\])(\d+)(?![\w.]|\.\d)")
 
 
+# inside string literals: the templates of the generator, the keywords and labels of the parser
+STR_OPS = [
+    (r"<", ">"), (r">", "<"), (r"(?<=\()=", "<"), (r"\band\b", "or"), (r"\bor\b", "and"), (r"\(not ", "("), (r"#t", "#f"), (r"#f", "#t"),
+    (r"logand", "logior"), (r"quotient", "remainder"), (r"(?<=[a-z)]) (?=[({a-z])", ""), (r"\)(?=\))", ""), (r"\((?=\()", ""), (r"~a", "~s"),
+    (r"\\n", ""), (r"\\0", r"\\n"), (r"(?<=[a-z])-(?=[a-z])", "_"), (r"\{\}", "{:?}"),
+    (r"(?<=-)([a-z])([a-z])", lambda m: m.group(2) + m.group(1)), (r"(?<![\w{:])(\d)(?![\w}])", lambda m: str((int(m.group(1)) + 1) % 10)),
+]
+STRLIT = re.compile(r'"((?:[^"\\]|\\.)*)"')
+ENUM = re.compile(r"\benum\s+(\w+)\s*(?:<[^>]*>)?\s*\{(.*?)\n\}", re.S)
+
+
+def enum_variants():
+    """enum name -> [(variant, payload shape)] from the crate's source; a variant is only swapped for a sibling of the same
+    payload shape (otherwise the mutant would not compile)."""
+    out = {}
+    for path in source_files():
+        txt = open(path).read()
+        for m in ENUM.finditer(txt):
+            vs = []
+            for ln in m.group(2).split("\n"):
+                ln = ln.split("//")[0].strip()
+                mm = re.match(r"(\w+)\s*(\(.*\)|\{.*\})?\s*,?$", ln)
+                if mm and not ln.startswith("#"):
+                    vs.append((mm.group(1), re.sub(r"\s+", "", mm.group(2) or "")))
+            if len(vs) >= 2:
+                out[m.group(1)] = vs
+    return out
+
+
 def source_files():
     out = []
     for root, _, files in os.walk(os.path.join(REPO, "src")):
@@ -53,6 +84,7 @@ def source_files():
 
 def mutants():
     ms = []
+    ENUMS.update(enum_variants())
     for path in source_files():
         rel = os.path.relpath(path, REPO)
         lines = open(path).read().split("\n")
@@ -66,7 +98,7 @@ def mutants():
             if not code.strip() or code.strip().startswith(("#[", "use ", "///", "//!")):
                 continue
             seen = set()
-            for pat, rep in OPS:
+            for pat, rep in (OPS if "ops" in KINDS else []):
                 for m in re.finditer(pat, code):
                     # not inside a string literal (rough: even number of quotes before)
                     if code[: m.start()].count('"') % 2 == 1:
@@ -77,6 +109,35 @@ def mutants():
                         continue
                     seen.add(key)
                     ms.append(dict(file=rel, line=i + 1, old=ln.strip(), new=new.strip(), text=new, op="%s→%s" % (pat, rep)))
+            if "strings" in KINDS:
+                for sm in STRLIT.finditer(code):
+                    body = sm.group(1)
+                    for pat, rep in STR_OPS:
+                        for m in re.finditer(pat, body):
+                            nb = body[: m.start()] + (rep(m) if callable(rep) else rep) + body[m.end():]
+                            new = code[: sm.start(1)] + nb + code[sm.end(1):] + ln[len(code):]
+                            key = (i, new)
+                            if key in seen or new == ln:
+                                continue
+                            seen.add(key)
+                            ms.append(dict(file=rel, line=i + 1, old=ln.strip(), new=new.strip(), text=new, op="in-string %s" % pat))
+            if "variants" in KINDS:
+                for en, vs in ENUMS.items():
+                    for vi, (vn, shape) in enumerate(vs):
+                        sib = [w for w, sh in vs[vi + 1:] + vs[:vi] if sh == shape]
+                        if not sib:
+                            continue
+                        for m in re.finditer(r"\b%s::%s\b" % (en, vn), code):
+                            if code[: m.start()].count('"') % 2 == 1:
+                                continue
+                            new = code[: m.start()] + "%s::%s" % (en, sib[0]) + code[m.end():] + ln[len(code):]
+                            key = (i, new)
+                            if key in seen:
+                                continue
+                            seen.add(key)
+                            ms.append(dict(file=rel, line=i + 1, old=ln.strip(), new=new.strip(), text=new, op="variant %s::%s→%s" % (en, vn, sib[0])))
+            if "ops" not in KINDS:
+                continue
             for m in INT.finditer(code):
                 if code[: m.start()].count('"') % 2 == 1:
                     continue
